@@ -353,6 +353,78 @@ Definition recorded (st : lstate) : list ind :=
   pop st ++ arch st ++ concat (map snd (gens st)) ++ concat (snaps st).
 
 (* ---------------------------------------------------------------------------------------- *)
+(* 3. ReproductionController.reproduce: the attempt loop                                      *)
+(* ---------------------------------------------------------------------------------------- *)
+(* Oracle: part i size = the individuals reproduce_uncontrolled (selection, crossover, mutation,
+   evaluator - which drops what does not evaluate) returns at attempt i when asked for `size`.
+   Individuals are uids.  required_valid_ratio = r_num / r_den.  The success-rate window holds
+   exact rationals (the code uses binary64; property C16 carries the float-exact model). *)
+From Coq Require Import ZArith QArith Qround.
+
+Record rparams := {
+  r_target : nat;        (* parameters.pop_size *)
+  r_num : nat; r_den : nat;   (* parameters.required_valid_ratio *)
+  r_min_pop : nat;       (* MIN_POP_SIZE = 5 *)
+  r_attempts : nat }.    (* EVALUATION_ATTEMPTS_NUMBER = 5 *)
+
+Inductive rres := RetOk (l : list ind) | RaiseAttempts.
+
+Definition qnat (n : nat) : Q := inject_Z (Z.of_nat n).
+(* float(np.mean(window)) *)
+Definition mean (w : list Q) : Q := (fold_right Qplus 0 w / qnat (length w))%Q.
+(* min(len(population), max(MIN_POP_SIZE, int(residual / mean_success_rate))) *)
+Definition req_size (p : rparams) (pop_len n_collected : nat) (w : list Q) : nat :=
+  let q := (qnat (r_target p - n_collected) / mean w)%Q in
+  Nat.min pop_len (Nat.max (r_min_pop p) (Z.to_nat (Qfloor q))).
+(* np.roll(window, 1); window[0] = ratio *)
+Definition push_window (x : Q) (w : list Q) : list Q :=
+  match w with [] => [] | _ => x :: removelast w end.
+
+(* collected.update({ind.uid: ind ...}): known uids keep their place, new ones are appended *)
+Fixpoint dict_update (d l : list ind) : list ind :=
+  match l with
+  | [] => d
+  | x :: r => dict_update (if mem x d then d else d ++ [x]) r
+  end.
+
+(* len(collected) >= target * required_valid_ratio ; ... * ratio * 0.5 *)
+Definition enough (p : rparams) (n : nat) : bool := r_target p * r_num p <=? n * r_den p.
+Definition enough_min (p : rparams) (n : nat) : bool := r_target p * r_num p <=? 2 * n * r_den p.
+
+Section Reproduce.
+  Variable p : rparams.
+  Variable pop_len : nat.
+  Variable part : nat -> nat -> list ind.
+
+  Fixpoint rloop (fuel i : nat) (collected : list ind) (w : list Q) : rres * list nat :=
+    match fuel with
+    | O => (* for ... else *)
+        (if enough_min p (length collected) then RetOk collected else RaiseAttempts, [])
+    | S f =>
+        let rs := req_size p pop_len (length collected) w in
+        let got := part i rs in
+        let collected' := dict_update collected got in
+        let w' := if r_min_pop p <=? length got
+                  then push_window (qnat (length got) / qnat rs)%Q w else w in
+        if enough p (length collected') then (RetOk (firstn (r_target p) collected'), [rs])
+        else let (r, ss) := rloop f (S i) collected' w' in (r, rs :: ss)
+    end.
+
+  Definition reproduce (w : list Q) : rres * list nat := rloop (r_attempts p) 0 [] w.
+
+  (* everything the evaluator delivered over the attempts made, deduplicated *)
+  Fixpoint collect_all (i : nat) (ss : list nat) (c : list ind) : list ind :=
+    match ss with
+    | [] => c
+    | s :: ss' => collect_all (S i) ss' (dict_update c (part i s))
+    end.
+End Reproduce.
+
+(* what the main loop sees of one call *)
+Definition evolve_of_reproduce (r : rres) (assemble : list ind -> list nat) : evolve_res :=
+  match r with RetOk l => EPop (assemble l) | RaiseAttempts => EAttemptsErr end.
+
+(* ---------------------------------------------------------------------------------------- *)
 (* well-behaved oracles (hypotheses of the theorems, as decidable predicates)                 *)
 (* ---------------------------------------------------------------------------------------- *)
 Definition upd_calm (u : upd) : bool :=
